@@ -80,7 +80,9 @@ def validate(module: str, cfg: str, records: List[Dict[str, Any]], shards: int =
     if not records:
         return {}, stats
     work = tlc.new_dir('val')
-    nsh = max(1, min(shards, (len(records) + 199) // 200))
+    # at least 200 and at most 4000 records per TLC run; at most `shards` runs at a time (2 GB heap each)
+    nsh = max(1, min(shards, (len(records) + 199) // 200), (len(records) + 3999) // 4000)
+    nsh = max(nsh, (len(records) + 3999) // 4000)
     parts = chunked(records, nsh)
     files = []
     for i, part in enumerate(parts):
@@ -95,7 +97,7 @@ def validate(module: str, cfg: str, records: List[Dict[str, Any]], shards: int =
         env = {'TRACE_FILE': fn}
         if extra_env:
             env.update(extra_env)
-        return tlc.run(module, cfg=cfg, cfg_text=cfg_text, workers=1, env=env, timeout=timeout, heap='3g')
+        return tlc.run(module, cfg=cfg, cfg_text=cfg_text, workers=1, env=env, timeout=timeout, heap='2500m')
 
     verdicts: Dict[int, Any] = {}
     with cf.ThreadPoolExecutor(max_workers=min(NCPU, len(files))) as ex:
